@@ -34,6 +34,12 @@ RULE = ("histories of 1..9 steps on PathLossGeneral / FreeSpace / 3GPP1 / "
         "1..8 angles in [-180,180]. non-trivial = a path-loss query preceded "
         "by >= 2 parameter-setter calls, or an antenna case with angles on "
         "both sides of the floor angle; distinct = SHA-1 of the case")
+RULE += (" Added after the white-box review: "
+         "METIS queries without the num_walls keyword, distances "
+         "within 1e-13 decades of the 0 dB crossing, attribute "
+         "read-back and read-modify-write after setter steps, integer "
+         "angle arrays ")
+
 LEVEL_TEXT = ("Seeded, sharded Hypothesis search over model configurations, "
               "setter histories and distances/angles, judged by a lock-step "
               "model (documented closed forms with the current parameter "
